@@ -16,6 +16,7 @@ mkdir -p $VW/replays $VW/evidence $VW/lean/OciModel/Generated
 [ -d $VW/lean/.lake ] || cp -r /verif/lean/.lake $VW/lean/.lake
 [ -d $VW/.build ] || cp -r /verif/.build $VW/.build
 [ -n "$(ls $VW/lean/OciModel/Generated 2>/dev/null)" ] || cp /verif/lean/OciModel/Generated/*.lean $VW/lean/OciModel/Generated/
+(cd $VW/translator && GOFLAGS=-mod=mod GOPROXY=off GOSUMDB=off GOTOOLCHAIN=local GOWORK=off go build -o ../.build/translator .) # the slot's own translator, current
 git -C $WT checkout -q -- . ; git -C $WT clean -qfd -e out
 # 1. demo
 run() {
